@@ -7,6 +7,7 @@ import (
 	"path/filepath"
 	"runtime"
 	"strconv"
+	"strings"
 
 	"github.com/form3tech-oss/f1/v2/verifharness/core"
 	_ "github.com/form3tech-oss/f1/v2/verifharness/props"
@@ -59,6 +60,29 @@ func run() int {
 			fmt.Println(id)
 		}
 		return 0
+	case "cases":
+		// f1verif cases <Cxx> <tier> [substring]: prints the generated case list (debugging aid)
+		p := core.Lookup(os.Args[2])
+		d := newDriver(p, os.Args[3])
+		for _, c := range p.Gen(os.Args[3], d.Seed) {
+			line := string(core.MustJSON(c))
+			if len(os.Args) < 5 || strings.Contains(line, os.Args[4]) {
+				fmt.Println(line)
+			}
+		}
+		return 0
+	case "run1":
+		// f1verif run1 <Cxx> <tier> <case id>: runs one case of the list in a child
+		p := core.Lookup(os.Args[2])
+		d := newDriver(p, os.Args[3])
+		for _, c := range p.Gen(os.Args[3], d.Seed) {
+			if c.ID == os.Args[4] {
+				os.Setenv("VERIF_EVIDENCE_OFF", "1")
+				return d.Check([]core.Case{c})
+			}
+		}
+		fmt.Fprintln(os.Stderr, "no such case")
+		return 2
 	case "child":
 		if len(os.Args) != 4 {
 			return usage()
